@@ -682,6 +682,27 @@ def value_encoding(v):
     return dict(NOV, c="unsupported", name=type(v).__name__)
 
 
+_ALT_NP = dict(float16=numpy.float16, float32=numpy.float32, float64=numpy.float64, float=numpy.float64,
+               complex64=numpy.complex64, complex128=numpy.complex128, complex=numpy.complex128,
+               integer8=numpy.int8, integer16=numpy.int16, integer32=numpy.int32, integer64=numpy.int64, integer=numpy.int64)
+
+
+def alt_value(val):
+    """the number an alternative-context constant expression denotes, in its own type (a NumPy scalar), or None"""
+    from functional_algorithms.expr import Expr
+    if not (isinstance(val, Expr) and val.kind == "constant"):
+        return None
+    raw = val.operands[0]
+    if isinstance(raw, (Expr, str, bool, numpy.bool_)) or not isinstance(raw, (int, float, complex, numpy.number)):
+        return None
+    try:
+        t = _ALT_NP.get(str(val.get_type()))
+        with numpy.errstate(all="ignore"):
+            return None if t is None else t(raw)
+    except Exception:  # noqa
+        return None
+
+
 def project(graph):
     """apply-expression -> dict(fname, params, nodes, root).  Node ids are 1-based positions in
     `nodes`, operands before users.  Identity is object identity of the real Expr objects."""
@@ -702,7 +723,20 @@ def project(graph):
         elif k == "constant":
             val = e.operands[0]
             if isinstance(val, Expr):
-                rec = dict(k="constant", a=[], t=str(e.get_type()), n="", v=dict(NOV, c="unsupported", name="alt-context expression"))
+                # a constant of an enable_alt context: its value is an expression of the alternative context.  When that is a
+                # plain numeric constant the node denotes "that number in the alternative type, converted to the node's type"
+                av = alt_value(val)
+                if av is not None and str(e.get_type()).startswith("complex") != isinstance(av, numpy.complexfloating):
+                    av = None      # a real alternative constant in a complex node (or vice versa): the denotation of the mixed
+                                   # operation (real scalar vs complex with a zero part) is not fixed by the graph - not judged
+                if av is None:
+                    rec = dict(k="constant", a=[], t=str(e.get_type()), n="", v=dict(NOV, c="unsupported", name="alt-context expression"))
+                else:
+                    t = str(e.get_type())
+                    v = value_encoding(av)
+                    if t.startswith("integer") and v["c"] in ("float", "complex"):
+                        v = dict(NOV, c="unsupported", name="float value in an integer-typed constant")
+                    rec = dict(k="constant", a=[], t=t, n="", v=v)
             else:
                 t = str(e.get_type())
                 v = value_encoding(val)
